@@ -133,6 +133,9 @@ pub struct ClientRun { pub exit: i32, pub stdout: String, pub stderr: String, pu
 ///   2  local-time output in a zone with daylight-saving rules (TZ=NZST-12NZDT,M9.5.0,M4.1.0/3)
 ///   3  UTC output; the server is addressed as 127.0.0.2 and answers from its wildcard-bound socket, so the reply's
 ///      source address (127.0.0.1) is not the address the request was sent to
+///   4  local wall-clock output ("%Y-%m-%d %H:%M:%S.%f", no offset shown) under TZ=EST5EDT with daylight-saving rules;
+///      the expected text comes from the C library (`date -d @secs`), not from the client's own time library
+pub const DST_ZONE: &str = "EST5EDT,M3.2.0,M11.1.0";
 pub static CLIENT_ENV_MODE: std::sync::atomic::AtomicUsize = std::sync::atomic::AtomicUsize::new(0);
 
 pub fn run_client(client_bin: &str, v: Proto, key: Option<String>, nreq: usize, extra: &[&str], sock: &UdpSocket,
@@ -142,6 +145,13 @@ pub fn run_client(client_bin: &str, v: Proto, key: Option<String>, nreq: usize, 
     let mut cmd = Command::new(client_bin);
     cmd.arg(if mode == 3 { "127.0.0.2" } else { "127.0.0.1" }).arg(port.to_string()).arg("-p").arg(if v == Proto::Google { "0" } else { "13" })
         .arg("-n").arg(nreq.to_string()).arg("-t").arg("2").arg("-j").arg("-f").arg("%s.%f");
+    if mode == 4 {
+        // local wall-clock output in a daylight-saving zone (the offset in force AT THE MIDPOINT applies, not today's)
+        let mut c2 = Command::new(client_bin);
+        c2.arg("127.0.0.1").arg(port.to_string()).arg("-p").arg(if v == Proto::Google { "0" } else { "13" })
+            .arg("-n").arg(nreq.to_string()).arg("-t").arg("2").arg("-j").arg("-f").arg("%Y-%m-%d %H:%M:%S.%f").env("TZ", DST_ZONE);
+        cmd = c2;
+    }
     if mode == 0 || mode == 3 { cmd.arg("-z"); }
     if mode == 1 { cmd.env("TZ", "EST5"); }
     if mode == 2 { cmd.env("TZ", "NZST-12NZDT,M9.5.0,M4.1.0/3"); }
@@ -273,6 +283,26 @@ fn from_recipe(v: Proto, r: &Value, request: &[u8], keys: &Keys, old: &Old, midp
     assemble(&Parts { framed, sig: ssig, nonc: honest.nonc.clone(), path, indx, srep, cert_sig: csig, dele })
 }
 
+/// the local wall-clock text of an instant in DST_ZONE, by the C library
+fn local_text(secs: u64, nanos: u32) -> String {
+    let o = Command::new("date").env("TZ", DST_ZONE).arg("-d").arg(format!("@{}.{:09}", secs, nanos)).arg("+%Y-%m-%d %H:%M:%S.%N").output();
+    o.ok().map(|x| String::from_utf8_lossy(&x.stdout).trim().to_string()).unwrap_or_default()
+}
+
+/// as emit_run, for runs whose "midpoint" is local wall-clock text
+fn emit_run_text(out: &mut dyn Write, kind: &str, v: Proto, keyopt: &str, run: &ClientRun, served: &[Value], expect: &[(u64, u32)], extra: Value) {
+    let mut printed: Vec<(String, bool)> = vec![];
+    for line in run.stdout.lines() {
+        if let Ok(j) = serde_json::from_str::<Value>(line.trim()) { if let Some(m) = j["midpoint"].as_str() { printed.push((m.to_string(), j["verified"].as_bool().unwrap_or(false))); } }
+    }
+    let want: Vec<String> = expect.iter().map(|(s, n)| local_text(*s, *n)).collect();
+    let times_ok = printed.len() <= want.len() && printed.iter().zip(want.iter()).all(|(p, w)| !w.is_empty() && p.0 == *w);
+    let verified: Vec<bool> = printed.iter().map(|p| p.1).collect();
+    writeln!(out, "{}", json!({"ev": "run", "kind": kind, "v": v.tag(), "key": keyopt, "nreq": run.requests.len(), "served": served, "exit": run.exit,
+        "printed": printed.len(), "verified": verified, "times_ok": times_ok, "panicked": run.stderr.contains("panicked"), "extra": extra,
+        "printed_text": printed.iter().map(|p| p.0.clone()).collect::<Vec<_>>(), "expected_text": want})).unwrap();
+}
+
 fn emit_run(out: &mut dyn Write, kind: &str, v: Proto, keyopt: &str, run: &ClientRun, served: &[Value], expect_times: &[(u64, u32)], extra: Value) {
     let printed = printed_times(&run.stdout);
     let times_ok = printed.len() <= expect_times.len() && printed.iter().zip(expect_times.iter()).all(|(p, e)| p.0 == e.0 && p.1 == e.1);
@@ -395,7 +425,7 @@ pub fn record(out_path: &str, client_bin: &str, seed: u64, tier: &str) {
                     // the delegation window is any window containing the midpoint, including the tight ones
                     let (mint, maxt) = match (k + (midp % 7) as usize) % 4 { 0 => (0, u64::MAX), 1 => (midp, u64::MAX), 2 => (0, midp), _ => (midp, midp) };
                     // output zone and server address vary from run to run: the printed instant must not
-                    let env_mode = (runs % 4) as usize;
+                    let env_mode = (runs % 5) as usize;
                     CLIENT_ENV_MODE.store(env_mode, std::sync::atomic::Ordering::Relaxed);
                     let run = run_client(client_bin, v, key_arg(&keys, keyopt), 1, &[], if env_mode == 3 { &sock_any } else { &sock }, &mut |_, rq| {
                         let d = assemble(&honest_parts_win(v, rq, &keys, *i, *n, midp, mint, maxt, &mut sub));
@@ -404,10 +434,51 @@ pub fn record(out_path: &str, client_bin: &str, seed: u64, tier: &str) {
                     });
                     CLIENT_ENV_MODE.store(0, std::sync::atomic::Ordering::Relaxed);
                     for rq in &run.requests { if let Some(nn) = proto::request_nonce(rq) { nonces.push(nn); } }
-                    emit_run(&mut out, "honest", v, keyopt, &run, &served, &[expected_print(v, midp)], json!({"n": n, "i": i, "midp": midp.to_string(), "env_mode": env_mode}));
+                    if env_mode == 4 { emit_run_text(&mut out, "honest", v, keyopt, &run, &served, &[expected_print(v, midp)], json!({"n": n, "i": i, "midp": midp.to_string(), "env_mode": env_mode})); }
+                    else { emit_run(&mut out, "honest", v, keyopt, &run, &served, &[expected_print(v, midp)], json!({"n": n, "i": i, "midp": midp.to_string(), "env_mode": env_mode})); }
                     runs += 1;
                 }
             }
+        }
+    }
+    // (1b) C01: a pinned key the client cannot use (wrong length, not hex / base64, empty): no response carries a signature
+    //      chain from "that key", so even the honest response must not be reported (exit 0 with a time)
+    for v in [Proto::Google, Proto::Ietf] {
+        let good = hex(&pinned);
+        let bads: Vec<String> = vec![good[..62].to_string(), format!("{}00", good), format!("zz{}", &good[2..]), good[..63].to_string(), String::new(),
+                                     b64_padded(&pinned[..31]), b64_padded(&[pinned.to_vec(), vec![7u8]].concat()), "====".to_string()];
+        // 32 well-formed bytes that are NOT a curve point (about every second mistyped key): no signature verifies under them
+        let mut nonpoints: Vec<String> = vec![];
+        let mut cand = pinned;
+        while nonpoints.len() < 3 { cand[(nonpoints.len() * 7 + 1) % 31] = cand[(nonpoints.len() * 7 + 1) % 31].wrapping_add(1); if !interp::is_curve_point(&cand) { nonpoints.push(hex(&cand)); nonpoints.push(b64_padded(&cand)); } }
+        let n_text_bad = bads.len();
+        let all: Vec<String> = bads.into_iter().chain(nonpoints.into_iter()).collect();
+        for (bi, bad) in all.into_iter().enumerate() {
+          // served: the honest response, and (for the non-point keys) a forgery whose certificate "signature" is the neutral
+          // point with S = 0 over the attacker's own delegation - what a verifier that falls back to a default key accepts
+          for forged in [false, true] {
+            if forged && bi < n_text_bad { continue; }
+            let midp = now_midp(v);
+            let mut served = vec![];
+            let mut sub = Rng::new(rng.next_u64());
+            let run = run_client(client_bin, v, Some(bad.clone()), 1, &[], &sock, &mut |_, rq| {
+                let mut parts = honest_parts(v, rq, &keys, 0, 1, midp, &mut sub);
+                if forged {
+                    parts.dele = enc_dele(&interp::pk_of_seed(&keys.olkx), 0, u64::MAX);
+                    parts.sig = sign(&keys.olkx, v.srep_ctx(), &parts.srep);
+                    let mut neutral = vec![0u8; 64]; neutral[0] = 1;
+                    parts.cert_sig = neutral;
+                }
+                let d = assemble(&parts);
+                let mut f = facts(v, &d, rq, &pinned); f["honest"] = json!(false); f["dele_sig_ok"] = json!(false); served.push(f);
+                Some(d)
+            });
+            for rq in &run.requests { if let Some(nn) = proto::request_nonce(rq) { nonces.push(nn); } }
+            if !run.requests.is_empty() {
+                emit_run(&mut out, "unusable-key", v, "bad", &run, &served, &[], json!({"key_len": bad.len(), "neutral_forgery": forged}));
+                runs += 1;
+            }
+          }
         }
     }
     // (2) C01: byte-region forgeries of an honest response
